@@ -329,6 +329,65 @@ def controlflow(rng, underflow_p=0.0, symbolic_p=0.0, big_stack_p=0.0):
 
 
 
+def shared_fault(rng):
+    """Several paths converge on one faulting instruction with *different* operands: a shared JUMP / JUMPI whose
+    target differs per path (non-JUMPDEST, out of range, >= 2^32, symbolic, valid), or a shared instruction that
+    underflows on one path and not on another. Returns (code, feats)."""
+    a = evm.Asm()
+    feats = set()
+    npaths = rng.randint(2, 4)
+    sink = rng.choice(["JUMP", "JUMPI", "underflow"])
+    feats.add("shared:" + sink)
+
+    def target():
+        k = rng.choice(["zero", "one", "oob", "oob-far", "big", "symbolic", "valid", "pushdata"])
+        feats.add("shared-target:" + k)
+        if k == "zero":
+            a.emit(("push", 0, 1))
+        elif k == "one":
+            a.emit(1)
+        elif k == "oob":
+            a.push_expr(lambda L: L["__len__"] + 3, 2)
+        elif k == "oob-far":
+            a.emit(0xffff)
+        elif k == "big":
+            a.push_expr(lambda L: (1 << 32) | L["OK"], 8)
+        elif k == "symbolic":
+            a.emit(4, "CALLDATALOAD")
+        elif k == "pushdata":
+            a.push_label("PD")
+        else:
+            a.push_label("OK")
+    a.mark_at("PD", 2)
+    a.emit(("push", 0x5b5b5b, 3), "POP")
+    for i in range(npaths - 1):
+        a.emit(rng.choice(["CALLVALUE", [36 + 32 * i, "CALLDATALOAD"]]))
+        a.jumpi("P%d" % i)
+    # the first block is the fall-through path
+    order = [None] + list(range(npaths - 1))
+    for i in order:
+        if i is not None:
+            a.label("P%d" % i)
+        if sink == "underflow":
+            # one or two operands for an instruction that needs two
+            for _ in range(rng.choice([0, 1, 2])):
+                a.emit(rng.randint(0, 9))
+        else:
+            if sink == "JUMPI":
+                a.emit(rng.choice(["CALLVALUE", 1, ("push", 0, 1)]))
+            target()
+        a.jump("TAIL")
+    a.label("TAIL")
+    if sink == "underflow":
+        a.emit(rng.choice(["ADD", "MSTORE", "SSTORE", "SWAP1", "DUP2"]), "STOP")
+    else:
+        a.emit(sink)
+        a.emit(rng.randint(1, 200), 0x200, "SSTORE", "STOP")
+    a.label("OK")
+    a.emit(rng.randint(1, 200), 0x201, "SSTORE", "STOP")
+    return a.assemble(), feats
+
+
 def loopy(rng):
     """Programs with arbitrary (backward and forward) jumps: self-loops, nested loops, jump tables, fork bombs,
     stack-growing loops and gas burners. Not stack-safe on purpose (an underflow just ends a thread)."""
